@@ -311,6 +311,13 @@ def check_functor(chk, f, siblings):
                     return y is not None and y.get("k") == "un" and y["op"] == "*"
                 if is_deref(x["l"]) and is_deref(x["r"]):
                     derefs_compared.append(x)
+                elif x["op"] in ("<", ">", "<=", ">=", "==", "!=") and (is_deref(x["l"]) or is_deref(x["r"])):
+                    # an element compared with a *value parameter* by the built-in operator (`*first == value` at the end of
+                    # binary_search): equality is not the comparator's equivalence
+                    other = astx.strip_casts(x["r"] if is_deref(x["l"]) else x["l"])
+                    if other is not None and other.get("k") == "ref" and other.get("d") == "param" and other.get("n") not in fps and \
+                            not re.search(r"It\b|Iter|Sentinel", (other.get("ty") or "")):
+                        derefs_compared.append(x)
         for x in derefs_compared:
             probs.append(("functor-bypassed", "elements are combined with `%s` although the overload takes `%s`" % (astx.show(x, 50), fps[0]), x))
         used = set(y["n"] for y in astx.all_exprs(f) if y.get("k") == "ref" and y["n"] in fps)
